@@ -20,7 +20,7 @@ import pickle
 from collections import OrderedDict
 
 import glom as G
-from glom import glom, Glommer, T, Path, assign, delete, Assign, Delete, Coalesce, GlomError, UnregisteredTarget, PathAccessError
+from glom import glom, Glommer, T, Path, assign, delete, Assign, Delete, Coalesce, GlomError, UnregisteredTarget, PathAccessError, Fold
 
 from ..engine import R, Sub
 
@@ -235,7 +235,8 @@ SPECS = {}
 def fresh_specs():
     """ONE spec object per operation for a whole history: it is used with every registry, before and after every registration"""
     SPECS.clear()
-    SPECS.update({'get': Path('x'), 'iterate': [T], 'keys': Path.from_text('*'), 'assign': Assign('y', 1), 'delete': Delete('x')})
+    SPECS.update({'get': Path('x'), 'iterate': [T], 'keys': Path.from_text('*'), 'assign': Assign('y', 1), 'delete': Delete('x'),
+                  'fold': Fold(T, init=list, op=_fold_op), 'get-nested': Path('w', 'x')})
 
 
 def observe_one(gl, op, cname):
@@ -289,8 +290,40 @@ def probe(o, name):
     return ','.join(out)
 
 
+def _fold_op(acc, x):
+    return acc + [x]
+
+
 def observe_all(gl, family, created=True):
-    return {(op, c.__name__): observe_one(gl, op, c.__name__) for c in FAMILIES[family] for op in OPS + (['assign-created'] if created else [])}
+    out = {(op, c.__name__): observe_one(gl, op, c.__name__) for c in FAMILIES[family] for op in OPS + (['assign-created'] if created else [])}
+    for c in FAMILIES[family]:
+        # the same lookups reached another way: 'iterate' through a fold, 'get' as the SECOND segment of a path (directly after a dict / a list)
+        o = c()
+        del HLOG[:]
+        try:
+            out[('fold', c.__name__)] = repr(gl(o, SPECS['fold']))
+        except UnregisteredTarget:
+            out[('fold', c.__name__)] = 'UnregisteredTarget'
+        except GlomError as e:
+            out[('fold', c.__name__)] = 'GlomError:' + type(e).__name__
+        except Exception as e:
+            out[('fold', c.__name__)] = 'Exception:' + type(e).__name__
+        if created:
+            for holder, mk in (('get-in-dict', lambda o: {'w': o}), ('get-in-dictsub', lambda o: _Holder(w=o))):
+                del HLOG[:]
+                try:
+                    out[(holder, c.__name__)] = repr(gl(mk(c()), SPECS['get-nested']))
+                except UnregisteredTarget:
+                    out[(holder, c.__name__)] = 'UnregisteredTarget'
+                except GlomError as e:
+                    out[(holder, c.__name__)] = 'GlomError:' + type(e).__name__
+                except Exception as e:
+                    out[(holder, c.__name__)] = 'Exception:' + type(e).__name__
+    return out
+
+
+class _Holder(dict):
+    """an (unregistered) dict subclass that holds the observed object: the object comes directly after a dict instance in the path"""
 
 
 # ---------------------------------------------------------------------------
@@ -537,6 +570,16 @@ def check_obs(family, obs, model):
     problems = []
     for k, o in obs.items():
         for (op, cname), seen in o.items():
+            if op == 'fold':
+                base = o[('iterate', cname)]
+                if not (seen == base or (not base.startswith('[') and not seen.startswith('['))):
+                    problems.append('registry %s: a fold over %s() gives %s, the list spec [T] gives %s (one iterate handler for both)' % (k, cname, seen, base))
+                continue
+            if op in ('get-in-dict', 'get-in-dictsub'):
+                base = o[('get', cname)]
+                if seen != base:
+                    problems.append('registry %s: x read from %s() directly gives %s, as second path segment (%s) %s' % (k, cname, base, op, seen))
+                continue
             adm = admissible(model[k], k != 'bare', OPS_AVAILABLE[k], 'assign' if op == 'assign-created' else op, cname)
             if seen not in adm:
                 problems.append('registry %s: %s on %s() observed %s, admissible %s (registrations %s)' % (
